@@ -913,7 +913,7 @@ def explore(tier, seed, report):
     jobs = [(seed, i, c) for i, c in enumerate(core.chunked(cs, size))]
     budget = float(os.environ.get("VERIF_BUDGET_S", "0") or 0)
     t0 = time.time()
-    violations = []
+    violations, kept_full = [], {}
     ctx = mp.get_context("fork")
     with ctx.Pool(nproc, initializer=core._worker_init, initargs=(__name__, core.REPO, None)) as pool:
         for outs in pool.imap(_work, jobs):
@@ -921,6 +921,11 @@ def explore(tier, seed, report):
                 if note:
                     report.notes.append(note)
                 if out["status"] == "violation":
+                    v = out["violation"]
+                    mech = v["features"].get("mechanisms", "none")
+                    kept_full[mech] = kept_full.get(mech, 0) + 1
+                    if mech not in ("none", "") and kept_full[mech] > 20:
+                        v["snippet"] = ""  # bound the parent's memory: explained repeats are only counted
                     violations.append((out, sample))
                 else:
                     report.add(out, sample)
